@@ -704,7 +704,7 @@ func runC18(r *Run) {
 			case 3:
 				fails = retries // boundary
 			}
-			if r.Search {
+			if r.Search && r.Rng.Intn(2) == 0 {
 				maxB = minB * time.Duration(1+r.Rng.Intn(6))
 				fails = 3 + r.Rng.Intn(8)
 				retries = fails + 1 + r.Rng.Intn(3)
